@@ -104,6 +104,8 @@ class KindEngine:
             for tgt, val, mode in assigns:
                 if mode == "aug":
                     k = self.kind(ast.BinOp(left=_load(val.target), op=val.op, right=val.value))
+                    if k == "U":
+                        continue       # x op= y keeps the kind x already has unless it is definitely changed
                 elif mode == "iter":
                     k = self._iter_kind(val)
                 else:
@@ -335,6 +337,10 @@ class KindEngine:
             if key and key in self.seeds.calls:
                 k = self.seeds.calls[key]
                 return (k(node, self) if callable(k) else k), None
+        if isinstance(node.func, ast.Subscript):
+            db = dotted(node.func.value)
+            if db and db + "[]" in self.seeds.calls:
+                return self.seeds.calls[db + "[]"], None
         if isinstance(node.func, ast.Attribute) and ("*." + node.func.attr) in self.seeds.calls:
             k = self.seeds.calls["*." + node.func.attr]
             return (k(node, self) if callable(k) else k), None
